@@ -23,7 +23,7 @@ PAIRS = {
 }
 EDITS = ["channels", "unit", "input_type", "loop_radius", "offset_value", "offset_property", "angle", "bearing",
          "waveform", "timing_mark", "components", "reopen", "copy", "copy_cross", "copy_of_copy", "copy_extent",
-         "edit_copy", "edit_copy", "refused_link", "relink", "refused_metadata"]
+         "edit_copy", "edit_copy", "refused_link", "relink", "refused_metadata", "crs"]
 
 
 def op_strategy():
@@ -61,6 +61,7 @@ class C20(Check):
              {"op": "edit_copy", "side": "A", "v": [1, 5, 6]}],
             [{"op": "reopen", "side": "A", "v": [2]}, {"op": "unit", "side": "B", "v": [1]}, {"op": "channels", "side": "A", "v": [3, 4]}],
             [{"op": "refused_link", "side": "A", "v": [1]}, {"op": "unit", "side": "A", "v": [3]}, {"op": "reopen", "side": "A", "v": [1]}],
+            [{"op": "crs", "side": "A", "v": [3]}, {"op": "reopen", "side": "A", "v": [1]}, {"op": "crs", "side": "B", "v": [4]}],
             [{"op": "relink", "side": "A", "v": [1]}, {"op": "unit", "side": "B", "v": [2]}, {"op": "reopen", "side": "A", "v": [1]}],
             [{"op": "refused_metadata", "side": "A", "v": [1]}, {"op": "refused_metadata", "side": "B", "v": [1]},
              {"op": "reopen", "side": "A", "v": [1]}],
@@ -144,6 +145,7 @@ class C20(Check):
         body = dict(meta.get("EM Dataset", meta)) if family != "dc" else dict(meta)
         # component groups are resolved by name on the entity that owns the data: not a shared parameter
         body.pop("Property groups", None)
+        body.pop("Coordinate Reference System", None)  # belongs to one entity, not to the pair
         return json.loads(json.dumps(body, sort_keys=True, default=lambda o: "{" + str(o) + "}" if isinstance(o, uuid.UUID) else str(o)))
 
     def check_pair(self, res, ws, a, b, pair, where, opname, partners=True):
@@ -437,6 +439,13 @@ class C20(Check):
         cls = type(target).__name__
         em = family != "dc"
         if name == "reopen":
+            return True
+        if name == "crs":
+            # a coordinate reference system adds a nested block to the metadata next to the link identifiers
+            try:
+                target.coordinate_reference_system = {"Code": f"EPSG:{26900 + v[0]}", "Name": "n" + str(v[0])}
+            except Exception:
+                return False
             return True
         if not em:
             return False
